@@ -38,11 +38,21 @@ SIZES = {
     "small": dict(scen=[0, 1, 1, 2], rules=[0, 0, 1], rscen=[0, 1, 2], steps=[0, 1, 2], ex=[0, 0, 1, 2], rows=3, cols=3, desc=4, doc=3),
     "medium": dict(scen=[0, 1, 2, 3], rules=[0, 0, 1, 2], rscen=[0, 1, 2], steps=[0, 1, 2, 3], ex=[0, 0, 1, 2], rows=3, cols=3, desc=5, doc=4),
     "large": dict(scen=[2, 4, 8], rules=[1, 2, 4], rscen=[1, 3, 5], steps=[1, 3, 6, 9], ex=[0, 1, 2, 3], rows=6, cols=5, desc=6, doc=30),
+    # boundary profile: every count crosses 10 (ids cross 100/1000, lines cross 100/1000)
+    "huge": dict(scen=[11, 14], rules=[3, 11], rscen=[2, 11], steps=[10, 12, 13], ex=[3, 5], rows=12, cols=12, desc=12, doc=110),
 }
+
+# boundary values for names / step texts / cells / tag names (all free of white space at their ends)
+SPECIAL_TEXT = ["<", ">", "<>", "<<a>>", "@", "@tag", ":", "::", "|", "#", "# not a comment", "\\", "\\n", "0", "-1", "Feature", "Feature:", "Scenario: x",
+                "Given", "Given x", "*", "* x", "Examples:", '"""', "```", "a" * 300, "x y  z", "<a><b>", "<a b>", "a|b", "a\\|b", "%", "%s", "%(x)s", "{0}", "{}",
+                "\\1", "$1", "None", "null", "true", "é", "\U0001F600", "a\tb", "=", "--", "---", ":-", "|-|", "`@x`", "1.5e3", "'", '"']
+SPECIAL_TAG = ["@", "@@", "@1", "@a:b", "@a#b", "@<a>", "@|", "@\\", "@" + "t" * 120, "@é", "@a.b-c_d", "@%s", "@{0}"]
 
 
 class Gen:
-    def __init__(self, rnd, dialect, size="medium", rare=False, ascii_only=False):
+    def __init__(self, rnd, dialect, size="medium", rare=False, ascii_only=False, special=0.0, deep=False):
+        self.special = special
+        self.deep = deep
         self.r = rnd
         self.d = dialect
         self.spec = dialects.master()[dialect]
@@ -63,6 +73,9 @@ class Gen:
     # ---- text helpers
     def text(self, maxlen=10, allow_empty=True):
         r = self.r
+        if self.special and r.random() < self.special:
+            self.stat("special_values")
+            return r.choice(SPECIAL_TEXT)
         n = r.randint(0 if allow_empty else 1, maxlen)
         alpha = ALPHA[:45] if self.ascii_only else ALPHA
         cs = [r.choice(alpha) for _ in range(n)]
@@ -78,6 +91,9 @@ class Gen:
         return t
 
     def ind(self):
+        if self.deep and self.r.random() < 0.15:
+            self.stat("deep_indentation")
+            return " " * self.r.choice([98, 99, 100, 101, 127, 255, 999])
         return "".join(self.r.choice("  \t") for _ in range(self.r.choice([0, 0, 1, 2, 2, 4, 5])))
 
     def pad(self):
@@ -199,15 +215,22 @@ class Gen:
     def tags(self, allow_filler=True):
         r = self.r
         out = []
-        for _ in range(r.choice([0, 0, 1, 1, 2])):
+        for _ in range(r.choice([0, 0, 1, 1, 2]) if not self.special else r.choice([0, 1, 2, 3])):
             if allow_filler:
                 self.filler(0.15)
             i = self.ind()
             line = i
             ln = len(self.lines) + 1
-            for _ in range(r.randint(1, 3)):
+            for _ in range(r.randint(1, 3) if not self.special else r.choice([1, 2, 3, 10, 12])):
                 chars = "abcXYZ09_-#:.<>|\\é\U0001F600" if not self.ascii_only else "abcXYZ09_-#:."
                 name = "@" + "".join(r.choice(chars) for _ in range(r.randint(1, 4)))
+                if self.special and r.random() < self.special:
+                    name = r.choice(SPECIAL_TAG)
+                    if name == "@@":
+                        # two empty-named tags written without a blank between them
+                        out.append({"location": {"line": ln, "column": len(line) + 1}, "name": "@"})
+                        line += "@"
+                        name = "@"
                 out.append({"location": {"line": ln, "column": len(line) + 1}, "name": name})
                 line += name + r.choice([" ", "  ", "\t", ""])
             if r.random() < 0.2:
@@ -455,13 +478,13 @@ class Rendered:
     __slots__ = ("text", "lines", "kinds", "ast", "nl", "final_nl", "dialect", "stats", "seed")
 
 
-def render(rnd, dialect=None, size="medium", rare=False, ascii_only=False, nl=None, default_dialect="en"):
+def render(rnd, dialect=None, size="medium", rare=False, ascii_only=False, nl=None, default_dialect="en", special=0.0, deep=False):
     """-> Rendered.  With default_dialect != 'en' the language header is omitted when the
     document's dialect equals the matcher's default."""
     names = list(dialects.master())
     if dialect is None:
         dialect = "en" if rnd.random() < 0.4 else rnd.choice(names)
-    g = Gen(rnd, dialect, size, rare, ascii_only)
+    g = Gen(rnd, dialect, size, rare, ascii_only, special, deep)
     ast = g.doc()
     out = Rendered()
     out.nl = nl or rnd.choice(["\n", "\n", "\r\n"])
